@@ -25,6 +25,7 @@ ShadowMachine executes the same statements on model values: an object store of
 so an in-place '+=' is seen through every variable bound to the same object.
 The model never touches the library.
 """
+import json
 import operator
 from fractions import Fraction
 
@@ -99,6 +100,16 @@ def struct_keys(structure):
     from ..atoms import key
     return tuple((c, struct_keys(frag) if isinstance(frag, (list, tuple)) else key(frag))
                  for c, frag in structure)
+
+
+def dumps(prog):
+    """A program as compact JSON text.  Cases carry programs in this form: the framework's witness
+    serialiser flattens anything nested more than eight levels deep, which nested sequences exceed."""
+    return json.dumps(prog, separators=(',', ':'))
+
+
+def loads(text):
+    return json.loads(text) if isinstance(text, str) else text
 
 
 def signature(prog):
